@@ -480,8 +480,12 @@ def evaluate(prog, pins, ikind, itv, witness, parsed=None):
         bad("parse:fallthrough-links-differ", "parse_txt links %r, the text says %r" % (got_next, want_next))
         return vs, "parse-bad"
 
-    for i, addr in pins.items():
-        loc_db.set_location_offset(keys[i], addr)
+    try:
+        for i, addr in sorted(pins.items()):
+            loc_db.set_location_offset(keys[i], addr)
+    except KeyError:
+        # two labels at one address: the LocationDB cannot express it (and no layout exists: every block has bytes)
+        return vs, "pin-refused"
     dst = interval([tuple(itv)]) if itv else None
     counter = [0]
     _guard(loc_db, counter)
@@ -595,7 +599,7 @@ def _shard(args):
     par = BOUNDS[tier][arch]
     prog = programs(arch, par)[idx]
     st = {"n": 0, "nontrivial": 0, "feasible": 0, "raise": 0, "patches": 0, "feasible_and_patches": 0, "infeasible_and_raise": 0,
-          "infeasible_but_patches": 0, "parse": 0, "pinned_mid_or_tail": 0, "two_pins_same_chain": 0, "bounded_interval": 0, "diverge": 0,
+          "infeasible_but_patches": 0, "parse": 0, "pinned_mid_or_tail": 0, "two_pins_same_chain": 0, "bounded_interval": 0, "diverge": 0, "pin_refused_same_address": 0,
           "max_offset_updates": 0}
     vs = []
     try:
@@ -621,6 +625,8 @@ def _shard(args):
             st["infeasible_but_patches"] += 1 if w is None else 0
         elif tag == "diverge":
             st["diverge"] += 1
+        elif tag == "pin-refused":
+            st["pin_refused_same_address"] += 1
         else:
             st["parse"] += 1
         st["max_offset_updates"] = max(st["max_offset_updates"], _LAST_UPDATES[0])
